@@ -167,7 +167,7 @@ def mapClone (h : MapHeap κ ν) : Option Nat → MapHeap κ ν × Option Nat
 
 `ListFr n l l'`: the first `n` objects of the heap component are untouched (and still there). -/
 
-def ListFr (n : Nat) (l l' : List α) : Prop := n ≤ l.length → n ≤ l'.length ∧ l'.take n = l.take n
+def ListFr (n : Nat) (l l' : List α) : Prop := n ≤ l'.length ∧ l'.take n = l.take n
 
 /-- A slice whose storage cannot be written below the bound `n`: it has no storage at all, or its
     array was allocated at or after `n`. -/
